@@ -35,7 +35,8 @@ BOUNDS = {"quick": "manual: 4 operations from {advance, set_message} after start
           "thorough": "5 manual operations, 4 body operations"}
 OUTSIDE = ["interleavings at bytecode granularity and preemption between arbitrary instructions: not expressible - CrossHair traces one thread and no deterministic CPython scheduler exists in this sandbox",
            "preemption between the erase write and the frame write of one redraw: known finding C19-torn-frame (every such schedule shows two frames on the line)",
-           "sub-second clock readings (float time differences); the OS scheduler; more than one spinner",
+           "sub-second clock readings in the E1 sequences (the E2 obligation smt_advance_float covers the throttle of advance() for ANY binary64 clock reading, in terms of the millisecond reading round(t*1000)); "
+           "that round(t*1000) is monotone in t is an IEEE-754 fact the solver did not decide within the budget - stated, not claimed; the OS scheduler; more than one spinner",
            "a real-thread smoke run (normal, Exception, KeyboardInterrupt exits) is executed concretely and reported as concretised, not as a solver verdict"]
 STUBS = ["clikit.ui.components.progress_indicator.time -> virtual clock (symbolic ints / finite menu) with sleep() = no-op", "clikit.ui.components.progress_indicator.threading -> sequential stubs: Thread records start/join, Event records set; the harness runs spinner iterations explicitly"]
 ASSUMPTIONS = ["one spinner iteration = one call of advance() (the body of _spin's loop), executed atomically between main-thread operations"]
@@ -196,6 +197,114 @@ def manual_plain(d1: int, d2: int, k: int) -> bool:
         pi.advance()
         pi.finish("done")
         return st.fetch() == " m0\n m1\n done\n\n"
+
+
+# ---------------------------------------------------------------- E2: the throttle of advance() for ANY float clock reading
+
+def smt_advance_float(tier):
+    """`advance` (with `_get_current_time_in_milliseconds` inlined) translated from the current source; `time.time()` is a nondeterministic
+    Float64.  Two consecutive calls at clock readings now1 <= now2 from an arbitrary armed state: a call draws exactly when the millisecond
+    reading has reached the deadline, a draw re-arms the deadline one interval later, so two draws are never closer than the interval in
+    millisecond readings - and the millisecond reading is monotone in the clock (no early draw through float rounding)."""
+    import z3
+    from vf import smtlib
+    from vf.py2smt import Ctx, run_method
+    F = z3.Float64()
+    W = 48
+    results, queries, solver_s = [], 0, 0.0
+    now1, now2, upd0 = z3.FP("now1", F), z3.FP("now2", F), z3.FP("upd0", F)
+    interval = z3.BitVec("interval", W)
+    fin = lambda x: z3.And(z3.Not(z3.fpIsNaN(x)), z3.Not(z3.fpIsInf(x)))
+    integral = lambda x: z3.fpEQ(z3.fpRoundToIntegral(z3.RNE(), x), x)
+    pre = [fin(now1), fin(now2), fin(upd0), z3.fpGEQ(now1, z3.FPVal(0.0, F)), z3.fpLEQ(now1, now2), z3.fpLEQ(now2, z3.FPVal(4.0e9, F)),
+           integral(upd0), z3.fpGEQ(upd0, z3.FPVal(0.0, F)), z3.fpLEQ(upd0, z3.FPVal(8.0e12, F)), interval >= 1, interval <= 3600000]
+
+    def step(upd, now, tag):
+        ctx = Ctx(bv=W)
+        drawn = {"g": z3.BoolVal(False)}
+
+        def display_stub(it, fr, args, guard, drawn=drawn):
+            drawn["g"] = z3.Or(drawn["g"], guard)
+            return None
+
+        env = {"self._started": True, "self._update_time": upd, "self._interval": interval, "self._current": z3.BitVecVal(0, W)}
+        stubs = {"supports_ansi": lambda it, fr, args, guard: True, "_display": display_stub, "time.time": lambda it, fr, args, guard: now}
+        ret, out = run_method(ProgressIndicator, "advance", env, [], ctx, stubs=stubs)
+        return drawn["g"], out["self._update_time"], out["self._current"], ctx
+
+    ms = lambda t: z3.fpRoundToIntegral(z3.RNE(), z3.fpMul(z3.RNE(), t, z3.FPVal(1000.0, F)))
+    d1, upd1, cur1, ctx1 = step(upd0, now1, "1")
+    upd1f = ctx1.tofp(upd1) if not isinstance(upd1, z3.FPRef) else upd1
+    d2, upd2, cur2, ctx2 = step(upd1f, now2, "2")
+    upd2f = ctx2.tofp(upd2) if not isinstance(upd2, z3.FPRef) else upd2
+    I = z3.fpSignedToFP(z3.RNE(), interval, F)
+    obligations = [
+        ("a call draws exactly when the millisecond reading has reached the deadline", d1 != z3.fpGEQ(ms(now1), upd0)),
+        ("a draw re-arms the deadline exactly one interval after the millisecond reading; no draw leaves it", z3.Not(z3.If(d1, z3.fpEQ(upd1f, z3.fpAdd(z3.RNE(), ms(now1), I)), z3.fpEQ(upd1f, upd0)))),
+        ("a draw advances the indicator by one value, no draw keeps it", cur1 != z3.If(d1, z3.BitVecVal(1, W), z3.BitVecVal(0, W))),
+        ("two draws are at least one interval apart in millisecond readings", z3.And(d1, d2, z3.fpLT(z3.fpSub(z3.RNE(), ms(now2), ms(now1)), I))),
+        # NOT an obligation: "round(t * 1000) is monotone in t".  It is an IEEE-754 fact (round-to-nearest multiplication by a positive constant and
+        # round-to-integral are both monotone) but cvc5 did not decide it for binary64 within 240 s, so it is stated in OUTSIDE, not claimed.
+        ("the deadline stays an exactly representable whole number of milliseconds", z3.Or(z3.Not(integral(upd2f)), z3.fpGT(upd2f, z3.FPVal(2.0 ** 52, F)))),
+        ("no exception", z3.Or(ctx1.exc, ctx2.exc)),
+    ]
+    for name, bad in obligations:
+        r, model, dt = smtlib.check(pre + [bad], logic="QF_BVFP", timeout_s=500)
+        queries += 1
+        solver_s += dt
+        results.append({"obligation": name, "result": r, "solver_s": round(dt, 2)})
+        if r == "sat":
+            return {"verdict": "refuted", "args": {"now1": model.get("now1"), "now2": model.get("now2"), "upd0": model.get("upd0"), "interval": model.get("interval"), "obligation": name},
+                    "queries": queries, "detail": results, "message": name}
+        if r != "unsat":
+            return {"verdict": "unknown", "queries": queries, "detail": results, "message": "%s: solver answered %s" % (name, r)}
+    w, _, dt = smtlib.check(pre + [d1, z3.Not(d2), z3.fpGT(now2, now1)], logic="QF_BVFP", timeout_s=120)
+    results.append({"witness": "a draw followed by a throttled call at a later clock reading is reachable", "result": w})
+    if w != "sat":
+        return {"verdict": "unknown" if w != "unsat" else "error", "message": "vacuity witness: " + w, "detail": results}
+    # translator validation on concrete readings against the real object
+    for (u, t1, t2, iv) in [(1000100.0, 1000.05, 1000.2, 100), (1000100.0, 1000.2, 1000.25, 100), (5.0, 0.0049, 0.0051, 1), (2000000.0, 1999.9996, 2000.0004, 500)]:
+        real = _real_two_advances(u, t1, t2, iv)
+        m1, m2 = round(t1 * 1000), round(t2 * 1000)
+        e1 = m1 >= u
+        u1 = m1 + iv if e1 else u
+        e2 = m2 >= u1
+        if real != (e1, e2):
+            return {"verdict": "refuted", "args": {"now1": t1, "now2": t2, "upd0": u, "interval": iv, "obligation": "concrete validation"}, "message": "real object draws %r, encoding expects %r" % (real, (e1, e2))}
+    return {"verdict": "confirmed", "queries": queries + 1, "solver_s": round(solver_s, 2), "detail": results}
+
+
+def _real_two_advances(upd0, t1, t2, interval):
+    clock = {"t": t1}
+    saved = pimod.time
+    pimod.time = type("T", (), {"time": staticmethod(lambda: clock["t"]), "sleep": staticmethod(lambda s: None)})
+    try:
+        pi = ProgressIndicator(Output(BufferedOutputStream(), AnsiFormatter(forced=True)), None, interval)
+        pi._started, pi._message, pi._update_time, pi._start_time = True, "m", int(upd0), t1
+        draws = []
+        pi._display = lambda: draws.append(clock["t"])
+        pi.advance()
+        n1 = len(draws)
+        clock["t"] = t2
+        pi.advance()
+        return (n1 == 1, len(draws) - n1 == 1)
+    finally:
+        pimod.time = saved
+
+
+def _replay_advance_float(a):
+    if a.get("obligation") == "concrete validation":
+        return "real object and encoding disagree at %r" % (a,)
+    u, t1, t2, iv = float(a["upd0"]), float(a["now1"]), float(a["now2"]), int(a["interval"])
+    d1, d2 = _real_two_advances(u, t1, t2, iv)
+    m1, m2 = round(t1 * 1000), round(t2 * 1000)
+    if d1 != (m1 >= u):
+        return "advance at clock %r (deadline %r ms): drew=%r" % (t1, u, d1)
+    if d1 and d2 and m2 - m1 < iv:
+        return "two draws %d ms apart with an interval of %d ms" % (m2 - m1, iv)
+    if m2 < m1:
+        return "millisecond reading not monotone"
+    return None
 
 
 # ---------------------------------------------------------------- automatic mode, symbolic schedule
@@ -409,6 +518,8 @@ def conditions(tier):
         for ops in (("as", "sa") if quick else ("as", "sa", "asa", "saas")):
             conds.append({"name": "manual[%s,messages like %r]" % (ops, MSG_KINDS[mk]), "fn": manual, "timeout": t, "part": {"ops": ops, "mk": mk},
                           "bounds": "as manual[%s], with messages of the form %r (text that looks like a placeholder of the frame format is still just the message)" % (ops, MSG_KINDS[mk])})
+    conds.append({"name": "smt_advance_float", "engine": "smt", "fn": smt_advance_float, "timeout": 900, "replay": _replay_advance_float,
+                  "bounds": "E2 (cvc5 QF_BVFP over the translated advance/_get_current_time_in_milliseconds): two consecutive advance() calls at ANY float clock readings 0 <= now1 <= now2 <= 4e9 s, any armed deadline (whole ms <= 8e12), any interval 1..3 600 000 ms"})
     conds.append({"name": "manual_twin", "fn": manual_twin, "timeout": t, "expect": "refute", "part": {"ops": "aaa"}, "bounds": "reachability twin"})
     conds.append({"name": "manual_plain", "fn": manual_plain, "timeout": t, "bounds": "plain output: symbolic clock, no redraw by advancing, no control codes"})
     for ex in range(3):
